@@ -49,7 +49,18 @@ func runOrderCase(c orderCase) (Observation, Prediction, string) {
 		return Observation{}, pred, "a chain of valid elements did not build: " + err.Error()
 	}
 	obs := Run(h, c.Req)
-	return obs, pred, Diff(obs, pred)
+	// several X-API-Key lines: the observation has to agree with one consistent reading
+	first := ""
+	for _, p := range PredictAll(c.Chain, c.Req) {
+		d := Diff(obs, p)
+		if d == "" {
+			return obs, p, ""
+		}
+		if first == "" {
+			first = d
+		}
+	}
+	return obs, pred, first
 }
 
 // refused is returned by runOrderCase instead of a disagreement when the configuration was
@@ -238,6 +249,27 @@ func sandwich(rt *rapid.T, chain []Elem, witness Elem) {
 // at being accepted by every rejecting plugin of the chain, otherwise at being rejected by one
 // drawn rejecting plugin (an earlier one may still reject it first). Falls back to genReq.
 func genReqFor(rt *rapid.T, chain []Elem) Req {
+	rq := genReqFor0(rt, chain)
+	if rapid.IntRange(0, 7).Draw(rt, "multikey") != 0 {
+		return rq
+	}
+	// several X-API-Key field lines, drawn from the keys the chain configures and wrong ones
+	pool := []string{"wrong", "alpha", "beta"}
+	for _, e := range chain {
+		if e.Kind == "custom-auth" {
+			pool = append(pool, e.Key, e.Key)
+		}
+	}
+	for i, n := 0, rapid.IntRange(1, 2).Draw(rt, "extra_keys"); i < n; i++ {
+		rq.ExtraKeys = append(rq.ExtraKeys, rapid.SampledFrom(pool).Draw(rt, "extra_key"))
+	}
+	if rq.APIKey == "" { // no first line: the first extra line is the first line
+		rq.APIKey, rq.ExtraKeys = rq.ExtraKeys[0], rq.ExtraKeys[1:]
+	}
+	return rq
+}
+
+func genReqFor0(rt *rapid.T, chain []Elem) Req {
 	rq := genReq(rt)
 	var rejecters []int
 	for i, e := range chain {
@@ -280,13 +312,14 @@ func genReqFor(rt *rapid.T, chain []Elem) Req {
 func TestC17OrderSampled(t *testing.T) {
 	sub := lab.Sub("order-gating-sampled", "rapid: chains of length 4-5 over the seven kinds with per-instance apiKey in {alpha,beta} or (40%) an unusual non-empty key (whitespace-only, whitespace-padded, interior spaces, 2 KiB, non-ASCII), max_request_body in {default,16,100}, "+
 		"YAML rendering styles (block/flow, quoted/plain, int/float) or hand-built Go maps typed as yaml.v3 delivers them (50/50); requests: X-API-Key exact / absent / a near miss of the configured key (trimmed, padded, upper-cased, shortened) set verbatim on the *http.Request, body 0/4/40/200, "+
-		"Accept-Encoding gzip or not, client-sent mark, request dressing in {none, Upgrade: websocket, Upgrade: h2c, Expect: 100-continue, PUT, PATCH, DELETE, Authorization header, Range}; BuildChain called 1..3 times on the same configuration value, the request served by the last handler built; same oracle as the enumeration; non-trivial = rejection with >= 1 probe on each side of the rejecting plugin, or accepted with >= 2 position-observable elements")
+		"Accept-Encoding gzip or not, client-sent mark, 1-2 further X-API-Key field lines in 1 of 8 requests (keys of the chain / wrong ones; either documented-compatible reading of such a request is accepted, the gating must be consistent with it), request dressing in {none, Upgrade: websocket, Upgrade: h2c, Expect: 100-continue, PUT, PATCH, DELETE, Authorization header, Range}; BuildChain called 1..3 times on the same configuration value, the request served by the last handler built; same oracle as the enumeration; non-trivial = rejection with >= 1 probe on each side of the rejecting plugin, or accepted with >= 2 position-observable elements")
 	sub.NontrivialFloor(0.50)
 	sub.Floor("reject-between-probes", 0.10)
 	sub.Floor("route=yaml", 0.40)
 	sub.Floor("two-rejecters", 0.02)
 	sub.Floor("rebuilt", 0.30)
 	sub.Floor("dress=upgrade-websocket", 0.03)
+	sub.Floor("several-key-lines", 0.05)
 	lab.Check(t, sub, 1500, 50000, func(rt *rapid.T) {
 		n := rapid.IntRange(4, 5).Draw(rt, "len")
 		var chain []Elem
@@ -303,6 +336,9 @@ func TestC17OrderSampled(t *testing.T) {
 		}
 		if c.Req.Dress != "" {
 			labels = append(labels, "dress="+c.Req.Dress)
+		}
+		if len(c.Req.ExtraKeys) > 0 {
+			labels = append(labels, "several-key-lines")
 		}
 		if d == refused {
 			nt, labels = false, append(labels, "edge-key-config-refused")
